@@ -174,7 +174,7 @@ Qed.
 Lemma good_item al crlf it T : item_ok al it = true -> good_lines T ->
   good_lines (print_item (eol_of crlf) it ++ T).
 Proof.
-  intros Hok HT. destruct it as [num xref lines|k v|k v| |t ts|d m y c au|po sep syms rows]; cbn [print_item].
+  intros Hok HT. destruct it as [num xref lines|k pad v|k v| |t ts|d m y c au|po sep syms rows]; cbn [print_item].
   - cbn [item_ok] in Hok. apply andb_true_iff in Hok. destruct Hok as [Hok Hl].
     apply andb_true_iff in Hok. destruct Hok as [Hn Hx].
     assert (E : (["R"; "N"; " "; " "; "["] ++ num ++ ["]"] ++ print_xref xref ++ eol_of crlf ++
@@ -194,12 +194,13 @@ Proof.
     + apply utf8_valid_app; [reflexivity|]. apply utf8_valid_app; [exact N2|].
       apply utf8_valid_app; [reflexivity|exact XR2].
     + apply good_reflines; assumption.
-  - destruct (field_ok_parts v Hok) as (H1 & H2 & _). cbn [app]. rewrite <- !app_assoc.
-    change (fst (field_tag k) :: snd (field_tag k) :: " " :: " " :: v ++ eol_of crlf ++ T)
-      with (fst (field_tag k) :: snd (field_tag k) :: (" " :: " " :: v) ++ eol_of crlf ++ T).
+  - cbn [item_ok] in Hok. apply andb_true_iff in Hok. destruct Hok as [Hpad Hv].
+    destruct (field_ok_parts v Hv) as (H1 & H2 & _).
+    pose proof (forallb_impl is_blank plain pad blank_plain Hpad) as Pp. destruct (plain_text pad Pp) as [P1 P2].
+    cbn [app]. rewrite <- !app_assoc. rewrite (app_assoc pad v).
     apply good_tagged; try exact HT; try (destruct k; reflexivity).
-    + cbn [no_nl forallb]. exact H1.
-    + exact H2.
+    + rewrite no_nl_app, P1, H1. reflexivity.
+    + apply utf8_valid_app; assumption.
   - cbn [item_ok] in Hok. apply andb_true_iff in Hok. destruct Hok as [H1 H2].
     cbn [app]. rewrite <- !app_assoc.
     apply good_tagged; try exact HT; try (destruct k; reflexivity); assumption.
@@ -517,7 +518,7 @@ End Records.
 Lemma starts_vv_body eol (p : prec) tl : starts_with ["V"; "V"] (print_body eol p ++ "/" :: "/" :: tl) = false.
 Proof.
   destruct p as [|it p]; [reflexivity|]. unfold print_body. cbn [flat_map]. rewrite <- app_assoc.
-  destruct it as [num xref lines|k v|k v| |t ts|d m y c au|po sep syms rows];
+  destruct it as [num xref lines|k pad v|k v| |t ts|d m y c au|po sep syms rows];
     cbn [print_item app xx_line flat_map]; try (destruct k); reflexivity.
 Qed.
 
